@@ -1,9 +1,197 @@
-(* C15 - property theorems (placeholder while the proofs are being written). *)
-From VF.C15 Require Import Model.
-From VF.gen Require Import C15Table C15Ops.
+(* C15 - Every EVM computational opcode computes its specified 256-bit function.
 
-Example C15_nonvacuous_run :
-  heap_ok jump_table op_bodies globals
-    (mkCase [96;3;96;4;1;0]%N 100000%N []%Z 0%N 99991%N 0%Z 0%Z) = false.
-Proof. vm_compute. reflexivity. Qed.
-Print Assumptions C15_nonvacuous_run.
+   Only theorem statements here; each is closed by [exact] of a lemma of the
+   proof files and followed by Print Assumptions.
+
+   Vocabulary (Model.v):
+   - [spec_step]/[spec_run]: the SPECIFICATION, a pure stack machine over Z
+     modulo 2^256 with the yellow paper's gas (C15_spec_is_textbook shows its
+     masked/shifted definitions are the textbook functions).
+   - [step]/[run]: the hand-written mirror of EVMInterpreter.Run over the HEAP
+     machine (mutable big.Int cells, stack and integer pool as lists of cell
+     addresses), parameterised by a jump table and by opcode bodies.
+   - [jump_table] (gen/C15Table.v) and [op_bodies], [globals] (gen/C15Ops.v) are
+     REGENERATED from the repository at every check: the jump table from the
+     running code, the bodies by translating the go/ast of
+     core/vm/instructions.go, common/math/big.go, common/big.go.
+   - [WF]: no cell is shared between two stack slots or between stack and pool,
+     every stack cell holds a value in [0, 2^256), package-level big integers
+     hold their values. *)
+From Coq Require Import Lia.
+From VF.C15 Require Import Model ProofsArith ProofsHeap ProofsTac ProofsClosures ProofsSim ProofsSpec ProofsOps Bridge.
+From VF.gen Require Import C15Table C15Ops.
+Local Open Scope Z_scope.
+
+(* ------------------------------------------------------------------------------------- *)
+(* 1. Per opcode (T2 + T3): for every arithmetic, comparison, bitwise, shift and
+      byte opcode of the specification table, the jump table of the running code
+      charges the specified static gas, has the specified stack bounds and no
+      other behaviour flag, and dispatches to a body which - from ANY well-formed
+      configuration with enough operands, for ALL operand values - terminates
+      without panic in a well-formed configuration whose stack is the specified
+      function of the operands on top of the UNCHANGED rest, memory untouched.
+      (Division by zero, SDIV -2^255/-1, shifts >= 256, SIGNEXTEND index >= 31,
+      BYTE index >= 32 are ordinary cases of [comp_spec]'s functions.) *)
+Theorem C15_every_opcode_computes_its_function :
+  forall op f g, comp_spec op = Some (f, g) ->
+  exists name body,
+    entry jump_table op =
+      plain_op g (N.of_nat (cfun_arity f)) (1024 + N.of_nat (cfun_arity f) - 1) name /\
+    exec_stmt op_bodies name op = Some body /\ pc_extra name op = 0%N /\
+    comp_correct globals body f.
+Proof. exact (t_comp _ _ _ real_table_ok). Qed.
+Print Assumptions C15_every_opcode_computes_its_function.
+
+(* EXP: body correct for all base/exponent pairs; its dynamic gas is handled in 3. *)
+Theorem C15_exp_computes_power :
+  exists name body,
+    entry jump_table 10 = mkOp true 0 2 1025 false false false false false true false name "gasExp" "" /\
+    exec_stmt op_bodies name 10 = Some body /\ pc_extra name 10 = 0%N /\
+    comp_correct globals body (F2 spec_exp).
+Proof. exact (t_exp _ _ _ real_table_ok). Qed.
+Print Assumptions C15_exp_computes_power.
+
+(* ------------------------------------------------------------------------------------- *)
+(* 2. The specification functions are the textbook ones (mod 2^256, truncated
+      signed division, sign of the dividend for SMOD, floor for SAR, ...). *)
+Theorem C15_spec_is_textbook :
+  (forall a b, spec_add a b = (a + b) mod 2 ^ 256) /\
+  (forall a b, spec_mul a b = (a * b) mod 2 ^ 256) /\
+  (forall a b, spec_sub a b = (a - b) mod 2 ^ 256) /\
+  (forall a b, spec_sdiv a b = if b =? 0 then 0 else (Z.quot (sgn256 a) (sgn256 b)) mod 2 ^ 256) /\
+  (forall a b, spec_smod a b = if b =? 0 then 0 else (Z.rem (sgn256 a) (sgn256 b)) mod 2 ^ 256) /\
+  (forall a b, 0 <= b -> spec_exp a b = (a ^ b) mod 2 ^ 256) /\
+  (forall b x, 0 <= b -> spec_signextend b x =
+     if b <? 31 then let t := 8 * b + 7 in
+       if Z.testbit x t then x mod 2 ^ (t + 1) + (2 ^ 256 - 2 ^ (t + 1)) else x mod 2 ^ (t + 1)
+     else x) /\
+  (forall a, spec_not a = 2 ^ 256 - 1 - a) /\
+  (forall i x, 0 <= i -> spec_byte i x = if i <? 32 then (x / 2 ^ (8 * (31 - i))) mod 256 else 0) /\
+  (forall s v, 0 <= s -> spec_shl s v = if s <? 256 then (v * 2 ^ s) mod 2 ^ 256 else 0) /\
+  (forall s v, 0 <= s -> spec_shr s v = if s <? 256 then v / 2 ^ s else 0) /\
+  (forall s v, 0 <= s -> spec_sar s v =
+     if s <? 256 then (sgn256 v / 2 ^ s) mod 2 ^ 256 else if sgn256 v <? 0 then 2 ^ 256 - 1 else 0).
+Proof.
+  exact (conj spec_add_eq (conj spec_mul_eq (conj spec_sub_eq (conj spec_sdiv_eq (conj spec_smod_eq
+        (conj spec_exp_eq (conj spec_signextend_eq (conj spec_not_eq (conj spec_byte_eq
+        (conj spec_shl_eq (conj spec_shr_eq spec_sar_eq))))))))))).
+Qed.
+Print Assumptions C15_spec_is_textbook.
+
+(* ------------------------------------------------------------------------------------- *)
+(* 3. Programs.  For ANY bytecode, ANY gas limit below 3*2^32 (about 12.9
+      billion: beyond it the uint64 arithmetic of memoryGasCost wraps), ANY
+      contents of the shared integer pool and ANY number of steps, running the
+      interpreter loop over the regenerated bodies and table agrees with the
+      specification machine: same top-of-stack trace, and
+      - still running: a well-formed state (so no aliasing was ever created)
+        denoting exactly the specification's stack, memory, pc and gas;
+      - normal halt: same stack, memory and gas left;
+      - exceptional halt (stack underflow/overflow, invalid opcode, out of gas):
+        an error status with all gas consumed.
+      The statement is silent only once the program reaches an opcode outside
+      the computational / stack / memory groups ([PUnsupported]): environment,
+      storage, calls, logs and jumps belong to C16. *)
+Definition C15_full : Prop :=
+  forall (code : list N) (gas : N) (pool0 : list Z) (n : nat),
+    bytes_ok code -> (gas < gas_bound)%N ->
+    let sr := spec_run code n (mkP [] [] 0 gas) [] in
+    fst sr <> PUnsupported ->
+    exists r, run jump_table op_bodies code n (init_state globals pool0 gas) [] = (r, snd sr) /\
+              res_rel globals gas r (fst sr).
+
+Lemma programs_refine : C15_full.
+Proof.
+  intros code gas pool0 n Hcode Hgas sr Hsup.
+  pose proof (init_wf globals gas Hgas pool0 gas (N.le_refl _)) as Hwf.
+  exact (run_sim globals jump_table op_bodies real_table_ok gas Hgas code Hcode n
+           (init_state globals pool0 gas) [] Hwf Hsup).
+Qed.
+
+Theorem C15_programs_refine_the_specification : C15_full.
+Proof. exact programs_refine. Qed.
+Print Assumptions C15_programs_refine_the_specification.
+
+(* the same from any reachable (well-formed) state, e.g. in the middle of a program *)
+Theorem C15_programs_from_any_state :
+  forall (G0 : N) (code : list N) (n : nat) (s : istate) (tops : list Z),
+    (G0 < gas_bound)%N -> bytes_ok code -> WFI globals G0 s ->
+    fst (spec_run code n (abs s) tops) <> PUnsupported ->
+    exists r, run jump_table op_bodies code n s tops = (r, snd (spec_run code n (abs s) tops)) /\
+              res_rel globals G0 r (fst (spec_run code n (abs s) tops)).
+Proof.
+  exact (fun G0 code n s tops HG Hc => run_sim globals jump_table op_bodies real_table_ok G0 HG code Hc n s tops).
+Qed.
+Print Assumptions C15_programs_from_any_state.
+
+(* ------------------------------------------------------------------------------------- *)
+(* 4. Memory reads back what was written (on the specification machine, hence by
+      3. on the implementation model).  PARTIAL: the storage half of the sentence
+      (SLOAD after SSTORE) is not covered - SLOAD/SSTORE go through StateDB and
+      EIP-2200 gas, which this model does not contain (C16's state model). *)
+Theorem C15_memory_reads_back_partial :
+  forall m off v, 0 <= off -> (Z.to_nat off + 32 <= length m)%nat -> inrange v ->
+    spec_mload (spec_mstore m off v) off = v.
+Proof. exact mload_mstore. Qed.
+Print Assumptions C15_memory_reads_back_partial.
+
+(* ------------------------------------------------------------------------------------- *)
+(* 5. Bridge: the regenerated jump table and bodies meet every condition the
+      generic simulation theorem needs (static gas, stack bounds, flags, dynamic
+      gas and memory-size functions by name, unassigned bytes invalid), and the
+      hand-modelled Go functions are textually the ones the model was written
+      against. *)
+Theorem C15_regenerated_table_meets_the_conditions : table_ok globals jump_table op_bodies.
+Proof. exact real_table_ok. Qed.
+Print Assumptions C15_regenerated_table_meets_the_conditions.
+
+Theorem C15_hand_modelled_functions_unchanged :
+  fingerprints = recorded_fingerprints /\ pool_limit = poolLimit /\ verify_pool = false /\
+  stack_limit = 1024%N /\ length jump_table = 256%nat.
+Proof.
+  exact (conj hand_modelled_unchanged (conj pool_limit_ok (conj verify_pool_off (conj stack_limit_ok table_length)))).
+Qed.
+Print Assumptions C15_hand_modelled_functions_unchanged.
+
+(* ------------------------------------------------------------------------------------- *)
+(* Non-vacuity. *)
+(* PUSH32 2^255; PUSH32 2^256-1; SDIV  then  PUSH1 0; MSTORE; PUSH1 0; MLOAD; ... : the
+   hypotheses of 3. hold and the run is a real one (SDIV -1 / -2^255 = 0; 7+7 stored and
+   read back; 3 << 14 on top after a SWAP), with a junk-filled pool *)
+Definition ex_code : list N :=
+  [127; 128;0;0;0;0;0;0;0;0;0;0;0;0;0;0;0;0;0;0;0;0;0;0;0;0;0;0;0;0;0;0;0;
+   127; 255;255;255;255;255;255;255;255;255;255;255;255;255;255;255;255;255;255;255;255;255;255;255;255;255;255;255;255;255;255;255;255;
+   5; 96;7; 128; 1; 96;0; 82; 96;0; 81; 96;3; 144; 27; 0]%N.
+Example C15_nonvacuous_program :
+  bytes_ok ex_code /\ (100000 < gas_bound)%N /\
+  fst (spec_run ex_code 40 (mkP [] [] 0 100000) []) =
+    PStop (mkP [49152; 0] (be_bytes 32 14) 81 99956) /\
+  fst (run jump_table op_bodies ex_code 40 (init_state globals [(-42); 2 ^ 300; 7] 100000) []) <> Next (init_state globals [] 0).
+Proof.
+  split; [unfold bytes_ok, ex_code; repeat constructor|].
+  split; [reflexivity|]. split; [vm_compute; reflexivity|]. vm_compute. discriminate.
+Qed.
+Print Assumptions C15_nonvacuous_program.
+
+(* a well-formed configuration with operands for every arity exists, and SDIV of
+   the two extreme operands is the specified overflow case *)
+Example C15_nonvacuous_opcode :
+  WF globals (i_cfg (init_state globals [5; 6; 7] 1000)) /\
+  comp_spec 5 = Some (F2 spec_sdiv, 5%N) /\
+  spec_sdiv (2 ^ 255) (2 ^ 256 - 1) = 2 ^ 255 /\
+  spec_sar 300 (2 ^ 256 - 5) = 2 ^ 256 - 1 /\ spec_shl 256 1 = 0 /\
+  spec_signextend 31 12345 = 12345 /\ spec_byte 32 (2 ^ 256 - 1) = 0 /\ spec_div 7 0 = 0.
+Proof.
+  split; [exact (wfi_cfg _ _ _ (init_wf globals 1000 eq_refl [5; 6; 7] 1000 (N.le_refl _)))|].
+  repeat split; vm_compute; reflexivity.
+Qed.
+Print Assumptions C15_nonvacuous_opcode.
+
+(* the gas bound of 3. is needed: right above it the uint64 square in the mirror of
+   memoryGasCost wraps (as it does in the Go code, see fixes/C15_memory_gas_uint64_wrap.md):
+   expanding an empty memory to 2^37 bytes is charged 3*2^32 instead of C_mem(2^32) *)
+Example C15_gas_bound_is_needed :
+  memory_gas_cost 0 0 137438953472 = Some (12884901888, 12884901888)%N /\
+  cmem_cost 4294967296 = 36028809903865856%N /\ gas_bound = 12884901888%N.
+Proof. repeat split; vm_compute; reflexivity. Qed.
+Print Assumptions C15_gas_bound_is_needed.
